@@ -415,7 +415,7 @@ def replay5(cfg: dict, inp: dict) -> dict:
 
 def configs(tier: str):
     out = []
-    Ls = (1, 2, 3) if tier == 'quick' else (1, 2, 3, 4)
+    Ls = (1, 2, 3) if tier == 'quick' else (1, 2, 3, 4, 5)
     for span in ('list_sym', 'range', 'nd_obj_sym', 'nd_int', 'list_str'):
         for L in Ls:
             for (start, end) in (('none', 'none'), ('sym', 'sym'), ('sym', 'none'), ('none', 'sym')):
@@ -428,8 +428,10 @@ def configs(tier: str):
                     for errors, failures in (('raise', 'raise'), ('skip', 'ignore'), ('ignore', 'ignore'), ('replace', 'raise')):
                         if tier == 'quick' and L == 3 and errors in ('ignore',) and span not in ('list_sym',):
                             continue
-                        for B in ((1,) if tier == 'quick' or L == 4 else (1, 2)):
-                            if B == 2 and (span not in ('list_sym', 'range') or L > 2):
+                        for B in ((1,) if tier == 'quick' or L >= 4 else (1, 2)):
+                            if L == 5 and (span not in ('list_sym', 'range') or errors not in ('raise', 'skip')):
+                                continue
+                            if B == 2 and (span not in ('list_sym', 'range') or L > 3):
                                 continue
                             # explicit labels on an ndarray span with repeated labels "do not resolve to a single
                             # position" (KeyError by the statement; the fallback locator does raise): assume distinct
@@ -488,7 +490,7 @@ def main() -> int:
         functions=['fsic.core.interfaces.SolverMixin.solve', 'SolverMixin.iter_periods', 'SolverMixin.solve_period',
                    'fsic.core.interfaces.PeriodIter', 'fsic.core.containers.VectorContainer._locate_period_in_span',
                    'VectorContainer._locate_period_in_span_fallback', 'fsic.core.models.BaseModel.solve_t'],
-        bounds={'span_length': '0..3 (thorough 4)', 'max_iter': '1 (thorough 2 for short spans)', 'check_variables': 1,
+        bounds={'span_length': '0..3 (thorough 5)', 'max_iter': '1 (thorough 2 for short spans)', 'check_variables': 1,
                 'span_types': ['list of symbolic integer labels', 'range', 'object ndarray of symbolic labels',
                                'int64 ndarray', 'list of str'],
                 'start_end': 'symbolic integers (any value: present, duplicated, absent) or omitted',
